@@ -163,3 +163,11 @@ def tasks(tier):
     from specs.wrappers import wrapper_task
     n = 40 if tier == 'quick' else 1000
     return _t_legs(tier) + [(f'leg:{op}', wrapper_task(op, 'C05', n)) for op in ('withdraw_ignore_borrow_cap', 'deposit_ignore_deposit_cap', 'repay')]
+
+
+
+# ---------------------------------------------------------------- C05.g: the prices a liquidation is sized with (shared with C09.j / C09.d): low-biased REAL-TIME collateral price through the confidence-checked getter
+_t_c05g = tasks
+def tasks(tier):
+    import specs.C09 as C09
+    return _t_c05g(tier) + [('fetch_helpers', lambda w: C09.t_fetch_helpers(w, 'C05.g')), ('price_pyth', renamed(C09.t_pyth, 'C09.d.', 'C05.g.')), ('price_switchboard', renamed(C09.t_switchboard, 'C09.d.', 'C05.g.'))]
